@@ -94,12 +94,49 @@ func gen(t *rapid.T) Case {
 			c.G = long
 		}
 	}
-	if c.Neg == "" && rapid.IntRange(0, 149).Draw(t, "wide") == 77 {
+	if c.Neg == "" && rapid.IntRange(0, 99).Draw(t, "wide") == 77 {
 		// wide containers: thousands of members (also just around 10000) in a collection or a multi-geometry, optionally
 		// with a small nested collection as the last member
 		n := rapid.OneOf(rapid.IntRange(9990, 10010), rapid.IntRange(1500, 12000), rapid.IntRange(1020, 1030)).Draw(t, "widen")
 		pt := func(i int) vkit.GJ { return vkit.GJ{T: "Point", Pts: []vkit.P2{vkit.MkP(float64(i), -0.5*float64(i))}} }
-		switch rapid.IntRange(0, 3).Draw(t, "widekind") {
+		switch rapid.IntRange(0, 7).Draw(t, "widekind") {
+		case 4:
+			// round 13: thousands of members that are EMPTY - polygons without rings (nine bytes each), polygons of one
+			// empty ring, empty lines, empty collections: the encoded members are as short as members can be
+			w := vkit.GJ{T: "MultiPolygon"}
+			one := rapid.Bool().Draw(t, "wideonering")
+			for i := 0; i < n; i++ {
+				if one && i%3 == 0 {
+					w.Polys = append(w.Polys, [][]vkit.P2{{}})
+				} else {
+					w.Polys = append(w.Polys, [][]vkit.P2{})
+				}
+			}
+			c.G = w
+		case 5:
+			w := vkit.GJ{T: "MultiLineString"}
+			for i := 0; i < n; i++ {
+				w.Rings = append(w.Rings, []vkit.P2{})
+			}
+			c.G = w
+		case 6:
+			w := vkit.GJ{T: "GeometryCollection"}
+			kinds := []vkit.GJ{{T: "GeometryCollection"}, {T: "MultiPoint"}, {T: "LineString"}, {T: "Polygon"}, {T: "MultiPolygon"}, {T: "MultiLineString"}}
+			k := rapid.IntRange(0, len(kinds)).Draw(t, "wideemptykind")
+			for i := 0; i < n; i++ {
+				if k == len(kinds) {
+					w.Geoms = append(w.Geoms, kinds[i%len(kinds)])
+				} else {
+					w.Geoms = append(w.Geoms, kinds[k])
+				}
+			}
+			c.G = w
+		case 7:
+			w := vkit.GJ{T: "Polygon"}
+			for i := 0; i < n; i++ {
+				w.Rings = append(w.Rings, []vkit.P2{})
+			}
+			c.G = w
 		case 0, 1:
 			w := vkit.GJ{T: "GeometryCollection"}
 			for i := 0; i < n; i++ {
@@ -307,7 +344,8 @@ func TestProp(t *testing.T) {
 			"OGC WKB writer; non-trivial = nesting depth>=2, or an empty member, or a NaN/Inf/-0/subnormal coordinate, or mixed " +
 			"per-element byte orders; distinct = distinct FNV-64 hash of the case JSON" +
 			" Round 10: one case in 150 is a single point array of 65 530 to 300 000 points (around 65 536, 130 048, 131 072 and up to 300 000) as a line string, a polygon ring or inside a collection." +
-			" Round 12: one case in 300 is wrapped in 2000, 9999, 10001, 12000 or 20000 nested collections.",
+			" Round 12: one case in 300 is wrapped in 2000, 9999, 10001, 12000 or 20000 nested collections." +
+			" Round 13: wide containers (1 in 100) also of thousands of EMPTY members: ringless polygons, polygons of one empty ring, empty lines, empty collections and multi-geometries, a polygon of thousands of empty rings.",
 		Assumptions: []string{"the reference serializer in props/c05 follows the OGC simple-features WKB layout", "nil and empty slices are identified"},
 		Gen:         gen,
 		Run:         run,
